@@ -136,9 +136,9 @@ theorem c03_compact (P : Prims) (E : Env) (K : KeyEnv) (L : JwsLaws P E) (reg : 
 /-- Detaching the content changes only the payload segment: header and signature are untouched,
 and putting the payload segment back restores the token. -/
 theorem c03_detach (h p s : Bytes) (h1 : 46 ∉ h) (h2 : 46 ∉ p) (h3 : 46 ∉ s) :
-    detachCompact (h ++ [46] ++ p ++ [46] ++ s) = h ++ [46] ++ [] ++ [46] ++ s := by
+    detachCompact (h ++ [46] ++ p ++ [46] ++ s) = .ok (h ++ [46] ++ [] ++ [46] ++ s) := by
   unfold detachCompact
   rw [splitOn_three h p s h1 h2 h3]
-  simp [joinWith]
+  simp [joinWith, pure, Except.pure]
 
 end Jose.C03
